@@ -58,6 +58,9 @@ def run(ctx):
     # the same catalogue through Display (to_string) and through the Hayson Serialize impls
     for t in zc.templates(ctx.quick()):
         for mode in ('display', 'hayson'):
+            # decimal-text floats make the final model query of the Hayson path slow (FP reasoning, no text stage to need them):
+            # the listed special and plain float shapes cover the number encoder there
+            if mode == 'hayson' and t['name'].startswith(('num-dec', 'num-unit-', 'coord')): continue
             T.append({'name': '%s:%s' % (mode, t['name']), 'shape': t['name'], 'wf': t['wf'], 'mode': mode})
     ctx.cov['bounds'] = {'string_code_points': 2 if ctx.quick() else 3, 'collection_entries': 2, 'nesting': 2}
     S = sym.explore_templates(ctx, __import__('props.C10', fromlist=['x']), T, prog, split_depth=4, budget_s=240 if ctx.quick() else 1500)
